@@ -778,6 +778,18 @@ impl Session {
         self.push(line, out, &format!("case {tag}"));
     }
 
+    /// a new parser inside the current case: the snapshot slots stay
+    pub fn restart_keep(&mut self, rows: u64, cols: u64, sb: u64, cb: &str) {
+        self.dead = false;
+        let line = format!("N {rows} {cols} {sb} {cb} keep");
+        let out = self.runner.exec(&line);
+        if out.starts_with("PANIC") {
+            self.dead = true;
+            self.panics.push((self.ops.len(), line.clone(), out.clone()));
+        }
+        self.push(line, out, "case restart");
+    }
+
     /// compared step
     pub fn checked(&mut self, line: &str, tag: &str) -> String {
         if self.dead {
